@@ -53,8 +53,7 @@ Proof. intros H. apply dbl_quote_id, path_str_no_dquote, H. Qed.
 (* what the three partially represented reads need; everything else: no hypothesis *)
 Definition body_pre (name : string) (w : world) : Prop :=
   (name = "rnto" -> s_rnfr (w_s w) <> None)
-  /\ (name = "pass_" -> s_user (w_s w) <> None)
-  /\ (name = "pwd" -> no_dquote (s_cwd (w_s w)) = true).
+  /\ (name = "pass_" -> s_user (w_s w) <> None).
 
 Section Den.
   Variable users : list user.
@@ -146,19 +145,15 @@ Section Den.
   Qed.
 
   Lemma den_pwd arg d appe w :
-    no_dquote (s_cwd (w_s w)) = true ->
     den "pwd" arg d appe w = Some (body users self "pwd" arg d appe w).
-  Proof.
-    intros H. apply pwd_text_unquoted in H.
-    unfold run_handler_prog. cbn -[path_str dbl_quote]. rewrite H. reflexivity.
-  Qed.
+  Proof. reflexivity. Qed.
 
   (* THE theorem: for every handler of the table, the hand-written body is the denotation of its program *)
   Theorem body_is_denotation name arg d appe w :
     In name handler_names -> body_pre name w ->
     den name arg d appe w = Some (body users self name arg d appe w).
   Proof.
-    intros Hin [P1 [P2 P3]]. unfold handler_names in Hin. cbn [map fst ref_programs] in Hin.
+    intros Hin [P1 P2]. unfold handler_names in Hin. cbn [map fst ref_programs] in Hin.
     destruct Hin as [<-|Hin]; [apply den_abor|].
     destruct Hin as [<-|Hin]; [apply den_appe|].
     destruct Hin as [<-|Hin]; [apply den_cdup|].
@@ -173,7 +168,7 @@ Section Den.
     destruct Hin as [<-|Hin]; [apply den_pasv|].
     destruct Hin as [<-|Hin]; [apply den_pbsz|].
     destruct Hin as [<-|Hin]; [apply den_prot|].
-    destruct Hin as [<-|Hin]; [apply den_pwd, P3; reflexivity|].
+    destruct Hin as [<-|Hin]; [apply den_pwd|].
     destruct Hin as [<-|Hin]; [apply den_quit|].
     destruct Hin as [<-|Hin]; [apply den_rest|].
     destruct Hin as [<-|Hin]; [apply den_retr|].
@@ -204,29 +199,27 @@ Proof. rewrite gen_programs. exact body_is_denotation. Qed.
 
 (* the hypotheses of [body_pre] are exactly what the handlers' own decorators establish / a quote-free cwd *)
 Lemma body_pre_trivial name w :
-  name <> "rnto" -> name <> "pass_" -> name <> "pwd" -> body_pre name w.
-Proof. intros A B C. repeat split; intros E; congruence. Qed.
+  name <> "rnto" -> name <> "pass_" -> body_pre name w.
+Proof. intros A B. repeat split; intros E; congruence. Qed.
 
 Lemma body_pre_from_fields name w :
-  has_field (w_s w) "rename_from" = true -> has_field (w_s w) "user" = true ->
-  no_dquote (s_cwd (w_s w)) = true -> body_pre name w.
+  has_field (w_s w) "rename_from" = true -> has_field (w_s w) "user" = true -> body_pre name w.
 Proof.
-  unfold has_field. cbn [String.eqb Ascii.eqb Bool.eqb]. intros A B C. repeat split; intros _.
+  unfold has_field. cbn [String.eqb Ascii.eqb Bool.eqb]. intros A B. repeat split; intros _.
   - destruct (s_rnfr (w_s w)); [discriminate|discriminate A].
   - destruct (s_user (w_s w)); [discriminate|discriminate B].
-  - exact C.
 Qed.
 
-(* ---- the model's PWD text is wrong when a name of the current directory contains a double quote ---- *)
+(* ---- PWD doubles every double quote of the directory, in the source program and in the model alike ---- *)
 Definition W_quote : world :=
   {| w_s := {| s_user := None; s_logged := true; s_cwd := [[97; 34; 98]%Z]; s_rnfr := None; s_rest := 0%Z;
                s_passive := false; s_data := false; s_ended := false |};
      w_fs := NDir []; w_log := [] |}.
 
-Lemma pwd_model_ignores_quote_doubling : forall users self,
+Lemma pwd_model_doubles_quotes : forall users self,
   option_map (fun r => o_info (snd (fst r))) (run_handler_prog users self (prog_of ref_programs "pwd") [] DNone false W_quote)
     = Some [34; 47; 97; 34; 34; 98; 34]%Z
-  /\ o_info (snd (fst (body users self "pwd" [] DNone false W_quote))) = [34; 47; 97; 34; 98; 34]%Z.
+  /\ o_info (snd (fst (body users self "pwd" [] DNone false W_quote))) = [34; 47; 97; 34; 34; 98; 34]%Z.
 Proof. intros. split; reflexivity. Qed.
 
 (* ---- the interpreter discriminates the mutations it should (whatever the inputs) ---- *)
@@ -388,27 +381,24 @@ Section Lift.
   (* the WHOLE handler (decorator stack + body, delegation included) computed from the programs is the model's
      handler, for every world: the decorators establish what rnto / pass_ read *)
   Theorem handler_is_program_denotation : forall fuel name arg d appe w,
-    (name = "pwd" -> no_dquote (s_cwd (w_s w)) = true) ->
     handler_prog users ref_table ref_programs fuel name arg d appe w = handler users ref_table fuel name arg d appe w.
   Proof.
-    induction fuel as [|f IH]; intros name arg d appe w Hq; [reflexivity|].
+    induction fuel as [|f IH]; intros name arg d appe w; [reflexivity|].
     cbn [handler_prog handler].
     destruct (handler_of ref_table name) as [[ds dl]|] eqn:T; [|reflexivity].
     destruct (table_facts name ds dl T) as (Hn & Hr & Hp).
     apply (run_decos_ext ds arg (w_s w)); [reflexivity|].
     intros w' Hs Hf. unfold prog_body.
     rewrite (body_is_denotation users (handler_prog users ref_table ref_programs f) name arg d appe w').
-    - apply body_self_ext; intros a d' ap w''; apply IH; intros Q; discriminate Q.
+    - apply body_self_ext; intros a d' ap w''; apply IH.
     - apply mem_s_In. exact Hn.
     - repeat split; intros E.
       + rewrite Hs. apply (In_has_field _ "rename_from"); [|reflexivity]. apply Hf. apply mem_s_In. apply Hr. exact E.
       + rewrite Hs. apply In_has_user. apply Hf. apply mem_s_In. apply Hp. exact E.
-      + rewrite Hs. apply Hq. exact E.
   Qed.
 End Lift.
 
 Theorem gen_handler_is_program_denotation : forall users fuel name arg d appe w,
-  (name = "pwd" -> no_dquote (s_cwd (w_s w)) = true) ->
   handler_prog users ref_table Gen.Handlers.programs fuel name arg d appe w
   = handler users ref_table fuel name arg d appe w.
 Proof. rewrite gen_programs. exact handler_is_program_denotation. Qed.
